@@ -204,7 +204,7 @@ func C18(c *vk.Ctx) {
 				tcols = append(tcols, col)
 				res = append(res, proto.ResultColumn{Name: t.name, Data: col})
 			}
-			var auto proto.Results
+			var auto, cauto proto.Results
 			names := make([]string, len(targets))
 			for i, t := range targets {
 				names[i] = t.name
@@ -226,11 +226,19 @@ func C18(c *vk.Ctx) {
 					result = auto.Auto()
 				case "none":
 					result = nil
+				case "colauto":
+					if cauto == nil {
+						for _, cl := range blocks[0] {
+							cauto = append(cauto, proto.ResultColumn{Name: cl.name, Data: new(proto.ColAuto)})
+						}
+					}
+					result = cauto
 				}
 				var blk proto.Block
 				err := blk.DecodeBlock(proto.NewReader(bytes.NewReader(encode(cols, rows))), rev, result)
 				// reference verdict
 				accept := true
+				unjudged := false
 				why := ""
 				endMarker := len(cols) == 0 && rows == 0 // a 0 x 0 block is the end-of-data marker: nothing to bind
 				switch {
@@ -240,6 +248,7 @@ func C18(c *vk.Ctx) {
 					case "none":
 						accept = rows == 0
 						why = "rows without target"
+					case "colauto": // judged below
 					case "auto":
 						if bi > 0 {
 							// targets were created by the first block: same rules as typed from now on
@@ -293,6 +302,27 @@ func C18(c *vk.Ctx) {
 						if t, perr := refcol.Parse(string(auto[i].Data.Type())); perr == nil && !compatRef(types[cl.kind], t) {
 							accept, why = false, "type vs inferred"
 						}
+					}
+				}
+				if mode == "colauto" && !endMarker {
+					// explicit ColAuto targets re-infer for whatever type arrives. A type a fresh ColAuto
+					// refuses need not be refused by a used one (a bad zone on a compatible column is
+					// harmless), so only acceptance of inferable types is demanded; whatever is accepted
+					// goes through the soundness checks below
+					if len(cols) != len(cauto) {
+						accept, why = false, "column count"
+					} else {
+						for i, cl := range cols {
+							if cauto[i].Name != cl.name {
+								accept, why = false, "name vs target"
+							}
+							if new(proto.ColAuto).Infer(proto.ColumnType(types[cl.kind].Name)) != nil {
+								unjudged = true
+							}
+						}
+					}
+					if unjudged && accept {
+						accept = err == nil
 					}
 				}
 				if accept && err != nil {
@@ -351,11 +381,20 @@ func C18(c *vk.Ctx) {
 						return // after a rejection the decode stops
 					}
 				}
-				if mode == "auto" && accept && !endMarker && len(auto) == len(cols) {
+				inferred := auto
+				if mode == "colauto" {
+					inferred = cauto
+				}
+				if (mode == "auto" || mode == "colauto") && accept && !endMarker && len(inferred) == len(cols) {
 					for i, cl := range cols {
-						ac, ok := unwrapAuto(auto[i].Data)
+						ac, ok := unwrapAuto(inferred[i].Data)
 						if !ok {
 							continue
+						}
+						if t, perr := refcol.Parse(string(ac.Type())); perr == nil && !compatRef(types[cl.kind], t) {
+							// the column that received the rows is of a type the block's type cannot bind to
+							c.Violation("C18/incompatible-block-accepted/auto/stale-column", id, fmt.Sprintf("%s: decoded without error into inferred target %d, whose column is a %T of type %s", desc(), i, ac, ac.Type()), nil)
+							return
 						}
 						if ad := adopted18(types[cl.kind], ac.Type()); ad != "" {
 							c.Violation("C18/parameters-not-adopted", id, fmt.Sprintf("%s: inferred target %d reports type %s afterwards: %s", desc(), i, ac.Type(), ad), nil)
@@ -373,7 +412,7 @@ func C18(c *vk.Ctx) {
 					c.Violation("C18/auto-column-count", id, fmt.Sprintf("%s: %d inferred columns", desc(), len(auto)), nil)
 					return
 				}
-				if !accept {
+				if !accept && mode != "colauto" {
 					return
 				}
 			}
@@ -477,6 +516,10 @@ func C18(c *vk.Ctx) {
 						c3[i] = col18{name: cols[i].name, kind: k, vals: vals}
 						check(fmt.Sprintf("%s/pair-kind%d=%d", base, i, k), [][]col18{cols, c3}, rows, eq, "typed")
 						check(fmt.Sprintf("%s/pair-auto-kind%d=%d", base, i, k), [][]col18{cols, c3}, rows, nil, "auto")
+						// a retry: the changed block offered twice (a refusal must not make the refused type
+						// stick to the inferred target), and the first schema again after it
+						check(fmt.Sprintf("%s/triple-colauto-kind%d=%d-again", base, i, k), [][]col18{cols, c3, c3}, rows, nil, "colauto")
+						check(fmt.Sprintf("%s/triple-colauto-kind%d=%d-back", base, i, k), [][]col18{cols, c3, cols}, rows, nil, "colauto")
 					}
 					// the same schema again with other values: targets must hold only the second block
 					c4 := append([]col18{}, cols...)
